@@ -46,7 +46,9 @@ def sx_dumps(x) -> str:
     if isinstance(x, bool):
         return "true" if x else "false"
     if isinstance(x, int):
-        return str(x)
+        if -(2 ** 61) < x < 2 ** 61:
+            return str(x)
+        return ("b-" if x < 0 else "b") + bin(abs(x))[2:]      # beyond OCaml's native int: binary digits (ocaml/conv.ml)
     if isinstance(x, str):
         return x
     if x is None:
@@ -55,6 +57,7 @@ def sx_dumps(x) -> str:
 
 
 _tok = re.compile(r"[()]|[^\s()]+")
+_bits = re.compile(r"b-?[01]+\Z")
 
 
 def sx_loads(s: str):
@@ -70,7 +73,7 @@ def sx_loads(s: str):
             try:
                 stack[-1].append(int(t))
             except ValueError:
-                stack[-1].append(t)
+                stack[-1].append(int(t[1:], 2) if _bits.match(t) else t)
     assert len(stack) == 1 and len(stack[0]) == 1, s[:200]
     return stack[0][0]
 
